@@ -53,7 +53,7 @@ structure Scene where
   /-- keys `(volume id, row)` inserted into `VolumeNormals` (`none`: the 2-D system has no such
       resource) -/
   vnKeys : Option (List (Nat × Nat))
-  deriving Repr
+  deriving Repr, DecidableEq
 
 /-- result of a (read-only) closure run non-transactionally on the map; `none` = panic -/
 def evalP {α : Type} (p : P Val α) (m : Map Val) : Option α :=
